@@ -514,4 +514,5 @@ def run(ctx):
     ctx.guard(r8, ctx, prog)
     from rules import C02_replay
     ctx.guard(C02_replay.r9, ctx, prog)
+    ctx.guard(C02_replay.r10, ctx, prog)
     return prog
